@@ -143,6 +143,9 @@ ORIGINS = ['early_listener', 'listener', 'login_listener',
            'outgoing_listener', 'exit_callback', 'hook_raises']
 
 
+_HUNG_SEEN = [0]
+
+
 def route_case(ctx, case):
     """case {origin, exc: class name, chain [{filter, early, do, new}],
              final: 'none'|'false'|'return'|'raise', final_new, compress}"""
@@ -166,6 +169,7 @@ def route_case(ctx, case):
     calls = []              # (who, exception object, exc_info ok)
     made = {}               # handler id -> exception object it raised
     reconnected = []
+    hung = []
     farewell = []
     fault = {'exc': None, 'raised': False}
     drawn = CLASSES[case.get('exc', 'A')]('injected fault')
@@ -302,6 +306,22 @@ def route_case(ctx, case):
                     # the exception being handled is the interpreter's
                     # active exception, so the bare form re-raises it
                     raise               # noqa: PLE0704
+                if h['do'] == 'supervised':
+                    # 'report to a supervisor and wait until it has shut the
+                    # connection down': another thread calls disconnect()
+                    # while this handler waits for it - the library holds
+                    # no lock of its own while handlers run
+                    import threading as _th
+                    if _HUNG_SEEN[0] < 2:
+                        # (after two hangs in this process the point is
+                        # made: do not wait 2 s in every later case)
+                        sup = _th.Thread(target=conn.disconnect)
+                        sup.daemon = True
+                        sup.start()
+                        sup.join(2.0)
+                        if sup.is_alive():
+                            hung.append(h['id'])
+                            _HUNG_SEEN[0] += 1
                 if h['do'] == 'bye':
                     # graceful shutdown from a handler: queue a farewell and
                     # call the plain (flushing) disconnect()
@@ -534,6 +554,10 @@ def route_case(ctx, case):
             ctx.fail('route', 'X3-farewell-before-disconnect-not-sent', case,
                      (got_bye, srvs[0].errors[:2]), want_bye)
         ctx.label('handler_farewell_then_disconnect')
+    if hung:
+        ctx.fail('route', 'X3-handler-blocked-by-a-library-lock', case,
+                 'disconnect() from another thread did not return within 2 s '
+                 'while handler %r waited for it' % (hung,), 'returns')
     # X4
     should_raise = final == 'none' and not caught
     raised_out = [c for c in hook_calls]
@@ -572,7 +596,7 @@ def handler_strategy():
         'early': st.booleans(),
         'do': st.sampled_from(['return', 'raise', 'raise', 'reraise',
                                'reconnect', 'reconnect_direct', 'bye',
-                               'bare_raise']),
+                               'bare_raise', 'supervised']),
         'new': st.sampled_from(sorted(CLASSES))})
 
 
@@ -690,7 +714,9 @@ def t_origins(ctx):
                            {'filter': ['B', 'C'], 'early': False,
                             'do': 'return', 'as_tuple': True}],
                           [{'filter': [], 'early': True, 'do': 'return',
-                            'as_tuple': True}]):
+                            'as_tuple': True}],
+                          [{'filter': [], 'early': False,
+                            'do': 'supervised'}]):
                 for comp in (None, 256):
                     route_case(ctx, fix_case({
                         'origin': origin, 'exc': 'B', 'chain': chain,
@@ -719,7 +745,7 @@ def t_origins(ctx):
                             'final': final, 'final_new': 'EOFError',
                             'compress': None, 'version': 757,
                             'pending_write_error': True}))
-    ctx.exhaustive_done('9 origins x 4 finals x 10 chains x 2 compression '
+    ctx.exhaustive_done('9 origins x 4 finals x 11 chains x 2 compression '
                         'modes')
 
 
